@@ -52,7 +52,7 @@ fn fold(msgs: &[Vec<Vec<u8>>]) -> BTreeMap<Vec<u8>, i32> {
 
 fn scenario(pr: &Params) -> Verdict {
     e3::set_hash_key(pr.hash_key);
-    world::reset(world::WorldCfg { nested_env: false, yields: true, select: false, policy: pr.policy });
+    world::reset(world::WorldCfg { nested_env: false, yields: true, select: false, policy: pr.policy, coop: false });
     let n = pr.peers;
     let conns: Vec<e3::RawConn> = (0..n).map(|p| e3::raw_conn(&format!("P{}", p))).collect();
     for (p, c) in conns.iter().enumerate() {
